@@ -51,6 +51,62 @@ prop("C20", "Unbounded proof that the clean-up removes a stray partial only when
      "concurrency with running transfers (A1); file system semantics (trusted)",
      {S+"cleanStrays": None, S+"pruneTree": None})
 
+B = "(*client.Broker)."
+prop("C02", "Unbounded proof of the guards on releasing source files: the cache entry is marked done and the file removed only under a positive poll verdict (waiting/received) and the tag's delete policy (delete flag, delete delay against the clock); negative verdicts are retried; the scan clean-up removes only entries that are done and deletable; NotFound gives up only at the configured attempt count; start-up recovery finishes only positively answered files; the receiver's verdict codes map only from validated/finalized/logged",
+     "interleaving of scan / validator / retry goroutines (A1); the cache implementation (cache.JSON) and the HTTP mapping of verdict codes when not yet under contract; 'done means this version' across re-adds",
+     {B+"getTag": None, B+"canDelete": None, B+"finish": None,
+      B+"scan": None, B+"startValidate": None,
+      B+"recover": ["finish-needs-positive", "finish-answers-of-this-poll", "sent-logged-once"],
+      B+"recover$1": ["polls-unchanged-files-only", "resumes-unchanged-files-only", "gone-files-only"],
+      B+"startTrack": ["accounting", "tracks-the-announced-size", "polled-needs-all-bytes"],
+      S+"GetFileStatus": None})
+prop("C07", "Unbounded proof of the resume arithmetic and dispatch of the sender's start-up recovery: the byte ranges queued for a partly received file are non-empty, ascending, disjoint from every range the receiver reported and cover every unreported byte of [0,size); NotFound files are re-queued whole, failed ones whole with their announced predecessor, positively answered ones are finished and queued as fully allocated placeholders; only unchanged, undone files are polled or resumed (narrow claim: no crash point is enumerated)",
+     "the crash-point quantifier, stale caches, repeated crashes; the receiver's report is assumed well-formed and within the file (proved on the receiver side as wf-preserved); sort.Sort trusted",
+     {B+"recover": None, B+"recover$1": None,
+      "(*client.recoverFile).Allocate": None, "(*client.recoverFile).IsAllocated": None, "(*client.recoverFile).GetSendSize": None, "(*client.recoverFile).GetPrev": None,
+      "(*queue.sortedFile).getPrevName": ["recovered-keeps-own-prev"]})
+prop("C08", "Unbounded proof that only acknowledged parts count as sent: the payload is split exactly at the acknowledged count (from the answer or from the recovery request), only the acknowledged head is forwarded to the tracker and only the remainder is retried; a payload is forwarded only after an error-free transmission; the tracker adds exactly the slice length per part (reset on a new hash), logs 'sent' and polls only when every byte was acknowledged; the receiver counts exactly the leading recorded parts",
+     "several sender threads in flight (A1); HTTP transport (Transmit / RecoverTransmission trusted)",
+     {B+"handleSendError": None,
+      B+"startSend": ["forward-needs-ack", "recovery-of-the-failed-payload", "retry-keeps-remainder"],
+      B+"startTrack": None,
+      "(*payload.Bin).Split": None,
+      S+"Received": None})
+prop("C10", "Unbounded proof of the per-call rules of the queue's emission: a chunk never names itself, unordered tags announce no predecessor, ordered ones announce the name returned for the chain predecessor (recovered files keep their own), the slice is exactly what the allocator returned, a placeholder skipped at the head stays the predecessor of the file behind it (under local list consistency); unordered tags drop the predecessor in the binnable",
+     "global acyclicity of the predecessor relation over Push/Pop histories; sorted insertion (addFile) not yet under contract; same name queued twice concurrently",
+     {"(*queue.Tagged).Pop": ["no-self-reference", "unordered-has-no-prev", "prev-is-chain-predecessor", "slice-from-allocate", "allocates-unallocated-only", "placeholder-stays-predecessor"],
+      "(*queue.sortedFile).getPrevName": None,
+      "(*client.binnable).GetPrev": None,
+      "(*client.recoverFile).GetPrev": None})
+prop("C11", "Unbounded proof of the cursor contracts that make chunks and parts tile a file: each allocator returns exactly [old cursor, new cursor), non-empty, within the limit and inside the object (plain files, resumed files with their missing ranges, the binnable's slice cursor); Bin.Add places exactly the next unallocated bytes up to the room left (capacity + 10% slack), never exceeds the allowance, refuses only when nothing fits; a bin without room reports full; Split keeps head and tail and their byte counts (running sum proved); the ranges queued for a resumed file are the complement of the reported ones",
+     "float rounding above 2^53 bytes (A3); the telescoping of the per-call contracts into 'exact tiling' is a paper step; data-structure invariant 0 <= allocated <= size assumed at Pop",
+     {"(*queue.sortedFile).allocate": None, "(*queue.sortedFile).isAllocated": None, "(*queue.sortedFile).getSendSize": None,
+      "(*client.recoverFile).Allocate": None, "(*client.recoverFile).IsAllocated": None, "(*client.recoverFile).GetSendSize": None,
+      "(*client.binnable).GetNextAlloc": None, "(*client.binnable).AddAlloc": None, "(*client.binnable).IsAllocated": None,
+      "payload.NewBin": None, "(*payload.Bin).IsFull": None, "(*payload.Bin).GetSize": None, "(*payload.Bin).Add": None, "(*payload.Bin).Split": None, "(*payload.Bin).Remove": None,
+      B+"startBin": None,
+      B+"recover$1": ["0", "frame-reported-ranges", "processed-below-cursor", "missing-wellformed", "only-missing", "nothing-forgotten", "resumed-ranges-wellformed", "resumed-only-missing", "resumed-nothing-forgotten", "resumed-carries-ranges"],
+      "(*queue.Tagged).Pop": ["slice-from-allocate", "allocates-unallocated-only"]})
+prop("C12", "Unbounded proof of the local rules of group rotation: the served group is moved directly behind the last group of the maximal run of equal priority (pointer postconditions under non-aliasing), the head pointer follows, exactly the group whose file is emitted is rotated, and the scan moves past a group only when it has nothing ready",
+     "sortedness of the group list by priority over addGroup/delayGroup histories and the bounded-bypass theorem are paper arguments; addGroup not yet under contract",
+     {"(*queue.Tagged).delayGroup": None,
+      "(*queue.Tagged).Pop": ["emits-a-file-of-the-served-group", "rotates-served-group", "skips-only-unready-groups"]})
+prop("C17", "Unbounded proof of the sender-side eligibility rules that are code in package client: a scanned file is taken iff it is not empty and is new or changed in size or time relative to the cache; changed files are dropped from a payload being retried and never re-sent by the retry loop; start-up recovery polls or resumes only unchanged files",
+     "the directory walk and pattern rules of store.Local when not yet under contract; histories of scans; regexp engine",
+     {B+"includeScannedFile": None,
+      B+"startSend": ["changed-files-dropped", "unchanged-files-kept"],
+      B+"startRetry": None,
+      B+"recover$1": ["polls-unchanged-files-only", "resumes-unchanged-files-only"]})
+# additions to the receiver-side properties
+P["C01"]["functions"] += [S+"Recover", S+"Recover$2"]
+P["C01"]["labels"][S+"Recover"] = ["recovered-wait-bodies-are-validated", "no-direct-finalize", "no-direct-delivery", "only-complete-partials-are-renamed"]
+P["C05"]["functions"] += [S+"initStageFile", S+"Prepare"]
+P["C06"]["functions"] += [S+"Recover"]
+P["C06"]["labels"][S+"Recover"] = ["wait-body-is-finalized", "full-or-complete-is-validated", "only-complete-partials-are-renamed", "orphan-companion-only", "not-ready-for-duration"]
+P["C04"]["functions"] += [B+"startRetry", "(*queue.Tagged).Pop"]
+P["C04"]["labels"][B+"startRetry"] = ["resend-keeps-prev"]
+P["C04"]["labels"]["(*queue.Tagged).Pop"] = ["placeholder-stays-predecessor", "prev-is-chain-predecessor", "no-self-reference"]
+
 os.makedirs(os.path.join(V, "props"), exist_ok=True)
 for pid, p in P.items():
     json.dump(p, open(os.path.join(V, "props", pid + ".json"), "w"), indent=1)
